@@ -348,6 +348,55 @@ func init() {
 		}
 		return acc
 	})
+	// sync.Map: a synchronised container. Modelled as an interface-keyed map beside the struct (its own code is
+	// lock-free pointer juggling through sync/atomic and unsafe); its operations are synchronised, so they are
+	// not stores to shared memory in the sense of C12 - whether results depend on what another caller put there
+	// is for the behavioural harnesses to decide.
+	anyT := types.NewInterfaceType(nil, nil).Complete()
+	syncMapOf := func(ex *Exec, recv Value) *MapV {
+		p, ok := recv.(*PtrV)
+		if !ok || p.P == nil {
+			ex.gopanic("runtime error: invalid memory address or nil pointer dereference")
+		}
+		if ex.syncMaps == nil {
+			ex.syncMaps = map[*Cell]*MapV{}
+		}
+		m := ex.syncMaps[p.P]
+		if m == nil {
+			m = &MapV{KT: anyT, VT: anyT, Addr: ex.alloc(48)}
+			ex.syncMaps[p.P] = m
+		}
+		return m
+	}
+	setIntrinsic("(*sync.Map).Load", func(ex *Exec, fn *ssa.Function, a []Value) Value {
+		m := syncMapOf(ex, a[0])
+		ex.hashable(a[1])
+		if e := ex.mapFind(m, a[1]); e != nil {
+			return TupleV{ex.copyVal(e.C.V), trueT}
+		}
+		return TupleV{&IfaceV{}, falseT}
+	})
+	setIntrinsic("(*sync.Map).Store", func(ex *Exec, fn *ssa.Function, a []Value) Value {
+		m := syncMapOf(ex, a[0])
+		ex.hashable(a[1])
+		ex.mapUpdate(m, a[1], a[2])
+		return nil
+	})
+	setIntrinsic("(*sync.Map).LoadOrStore", func(ex *Exec, fn *ssa.Function, a []Value) Value {
+		m := syncMapOf(ex, a[0])
+		ex.hashable(a[1])
+		if e := ex.mapFind(m, a[1]); e != nil {
+			return TupleV{ex.copyVal(e.C.V), trueT}
+		}
+		ex.mapUpdate(m, a[1], a[2])
+		return TupleV{a[2], falseT}
+	})
+	setIntrinsic("(*sync.Map).Delete", func(ex *Exec, fn *ssa.Function, a []Value) Value {
+		m := syncMapOf(ex, a[0])
+		ex.hashable(a[1])
+		ex.mapDelete(m, a[1])
+		return nil
+	})
 	// sync primitives used by stdlib on single-threaded paths
 	for _, n := range []string{"(*sync.Mutex).Lock", "(*sync.Mutex).Unlock", "(*sync.RWMutex).Lock", "(*sync.RWMutex).Unlock",
 		"(*sync.RWMutex).RLock", "(*sync.RWMutex).RUnlock", "runtime.KeepAlive", "runtime.GC", "runtime.Gosched"} {
